@@ -10,6 +10,7 @@
 //                                        `crash:<rc>` for it.
 //   cXX gen <seed> <n> <tier>            optional native case generator
 //   cXX extract <name>                   optional: emit Parsley/Gen/<name>.lean from the real crate
+pub mod objfmt;
 use std::io::{BufRead, Write};
 use std::panic;
 
